@@ -40,6 +40,18 @@ pub struct DeepType {
     pub d: i32,
 }
 
+/// Reachable only as a member of the union.
+#[derive(SimpleObject, Default, Clone)]
+pub struct OnlyViaUnion {
+    pub u: i32,
+}
+
+/// Reachable only as an implementor of the interface.
+#[derive(SimpleObject, Default, Clone)]
+pub struct OnlyViaInterface {
+    pub a: i32,
+}
+
 #[derive(Enum, Copy, Clone, Eq, PartialEq, Default)]
 pub enum Level {
     #[default]
@@ -77,12 +89,14 @@ impl Open {
 pub enum Thing {
     Open(Open),
     SecretType(SecretType),
+    OnlyViaInterface(OnlyViaInterface),
 }
 
 #[derive(Union)]
 pub enum AnyOf {
     Open(Open),
     SecretType(SecretType),
+    OnlyViaUnion(OnlyViaUnion),
 }
 
 pub struct Query;
@@ -123,7 +137,11 @@ enum Level { LOW  HIDDEN_VALUE  HIGH }
 input Opts { plain: Int  hiddenInput: Int }
 type Open implements Thing { a: Int!  hiddenField: DeepType!  echo(x: Int, hiddenArg: Int, level: Level, opts: Opts): Int! }
 interface Thing { a: Int! }
-union AnyOf = Open | SecretType
+union AnyOf = Open | SecretType | OnlyViaUnion
+"Reachable only as a member of the union."
+type OnlyViaUnion { u: Int! }
+"Reachable only as an implementor of the interface."
+type OnlyViaInterface implements Thing { a: Int! }
 type Query {
   open: Open!
   "an always-visible field whose type is toggled"
